@@ -146,11 +146,25 @@ def run_case(args):
     from aurel.coresymbolic import AurelCoreSymbolic
     name = f"dim={dim} simplify={simplify} metric={family} order={order_name}"
     t0 = time.time()
-    if family == 'generic':
+    cut = family.endswith('+gupcut')
+    if family.startswith('generic'):
         coords, g, jets, atom_map, pre = generic_metric(dim)
     else:
         coords, g, jets, atom_map, pre = polynomial_metric(dim)
     want = oracle_values(jets, dim)
+    U = None
+    if cut:
+        # cut point: the inverse metric is handed to the code as undetermined functions U_ij(x) whose jets are
+        # those of the exact inverse (gup itself is verified without the cut where sympy's inverse is affordable)
+        gi = oracle.inverse(jets)
+        ufun = {}
+        for i in range(dim):
+            for j in range(i, dim):
+                f = sp.Function(f'U{i}{j}')(*coords)
+                ufun[i, j] = ufun[j, i] = f
+                for k in jet_keys(dim, 1):
+                    atom_map[sp.diff(f, *[coords[a] for a in k]) if k else f] = gi[i, j].c[k]
+        U = sp.Matrix(dim, dim, lambda i, j: ufun[i, j])
     trn = Translator(atom_map)
     gval = [[jets[i, j].c[()] for j in range(dim)] for i in range(dim)]
     detg = oracle.det(oracle.truncate(jets, 0))
@@ -160,20 +174,26 @@ def run_case(args):
 
     def compute(rel, q):
         return rel[q]
+    quantities = [q for q in QUANTITIES if not (cut and q in ('gup', 'gdet'))]
     if order is None:
-        for q in QUANTITIES:
+        for q in quantities:
             rel = AurelCoreSymbolic(coords, verbose=False, simplify=simplify)
             rel.data['gdown'] = g
+            if cut:
+                rel.data['gup'] = U
             results[q] = compute(rel, q)
     else:
         rel = AurelCoreSymbolic(coords, verbose=False, simplify=simplify)
         rel.data['gdown'] = g
+        if cut:
+            rel.data['gup'] = U
         for q in order:
-            results[q] = compute(rel, q)
+            if q in quantities:
+                results[q] = compute(rel, q)
     t_sym = time.time() - t0
     obs = []
     err = None
-    for q in QUANTITIES:
+    for q in quantities:
         v = results[q]
         w = want[q]
         shape = () if not hasattr(w, 'shape') or w.shape == () else w.shape
@@ -202,8 +222,13 @@ def run_case(args):
                 env[nm] = F(7 + i, 1) * (-1 if (dim == 4 and i == 0) else 1)
         return env
     import random
-    rungs = [dict(name='full', envs=[None], timeout=60 if tier == 'quick' else 300)]
-    solve_ladder(obs, rungs, sampler=sampler if family == 'generic' else None, rng=random.Random(dim), workers=2)
+    env_val = {}
+    for i in range(dim):
+        for j in range(i, dim):
+            env_val[f'g{i}{j}'] = (F(7 + i) * (-1 if (dim == 4 and i == 0) else 1)) if i == j else F(i + 2 * j + 1, 4)
+    rungs = [dict(name='full', envs=[None], timeout=60 if tier == 'quick' else 300),
+             dict(name='slices:metric-value-fixed', envs=[env_val], timeout=120 if tier == 'quick' else 600)]
+    solve_ladder(obs, rungs, sampler=sampler if family.startswith('generic') else None, rng=random.Random(dim), workers=2)
     out = []
     for o in obs:
         r = o.result
@@ -225,7 +250,7 @@ def replay_numeric(args, q, idx, model):
     dim, simplify, family, order_name, tier = args
     from aurel.coresymbolic import AurelCoreSymbolic
     coords = sp.symbols(f'x0:{dim}')
-    if family == 'generic':
+    if family.startswith('generic'):
         ent = {}
         for i in range(dim):
             for j in range(i, dim):
@@ -290,17 +315,19 @@ def replay_numeric(args, q, idx, model):
 
 def cases(tier):
     out = []
-    for dim in (2, 3, 4):
-        for order in ORDERS:
-            if tier == 'quick' and dim == 4 and order != 'fresh-each':
-                continue
-            out.append((dim, False, 'generic', order, tier))
+    for order in ORDERS:
+        out.append((2, False, 'generic', order, tier))
+        out.append((3, False, 'generic', order, tier))
     out.append((2, True, 'generic', 'fresh-each', tier))
     out.append((2, True, 'generic', 'Riemann_uddd-first', tier))
-    out.append((3, True, 'polynomial', 'fresh-each', tier))
+    out.append((4, False, 'generic+gupcut', 'Riemann_uddd-first', tier))
+    out.append((4, False, 'generic+gupcut', 'Riemann_down-first', tier))
     if tier == 'thorough':
+        out.append((3, True, 'generic+gupcut', 'Riemann_uddd-first', tier))
+        out.append((2, True, 'generic', 'Riemann_down-first', tier))
+        out.append((3, True, 'generic+gupcut', 'Riemann_down-first', tier))
+        out.append((4, True, 'generic+gupcut', 'Riemann_uddd-first', tier))
         out.append((3, True, 'polynomial', 'Riemann_uddd-first', tier))
-        out.append((4, True, 'polynomial', 'fresh-each', tier))
     return out
 
 
@@ -310,7 +337,7 @@ def defaults_and_errors(report):
     ok = True
     for dim, sig in ((3, [1, 1, 1]), (4, [-1, 1, 1, 1])):
         rel = AurelCoreSymbolic(sp.symbols(f'x0:{dim}'), verbose=False, simplify=False)
-        ok &= rel['gdown'] == sp.diag(*sig) and all(x == 0 for x in rel['Ricci_down'])
+        ok &= rel['gdown'] == sp.diag(*sig) and all(x == 0 for x in sp.flatten(rel['Ricci_down'].tolist()))
     try:
         AurelCoreSymbolic(sp.symbols('x0:2'), verbose=False)['gdown']
         ok = False
